@@ -3,6 +3,8 @@ from fractions import Fraction
 import gen_bank as G
 import gen_hops as H
 from props import c13 as K
+from props import txgen as TG
+from props import c10 as C10
 
 ID = "C12"
 MANIFEST = {
@@ -442,7 +444,9 @@ def suites(rng, tier):
     ld = delev_finding_lines(rng) + [gen_delev_case(rng) for _ in range(ndv)]
     dd = {"cases": len(ld)}
     return [{"suite": "privsim", "name": "privsim-levelC", "lines": lp, "distribution": dp},
-            {"suite": "delevsim", "name": "delevsim-levelC", "lines": ld, "distribution": dd}]
+            {"suite": "delevsim", "name": "delevsim-levelC", "lines": ld, "distribution": dd},
+            {"suite": "txval", "name": "deleverage-bracket-shapes", "lines": TG.val_exhaustive(rng, "delev", 4 if tier != "thorough" else 5),
+             "distribution": {"alphabet": TG.ALPHABETS["delev"], "note": "'bracketed like a liquidation': every instruction list up to the bound over start/end_deleverage, withdraw, repay, record init, borrow, compute budget, Kamino refresh, Jupiter and a liquidation end, given to the real validate_instructions with the deleverage discriminators; accepted lists must be skippable* start listed* end"}}]
 
 
 # ------------------------------------------------------------------------------------------------ oracles
@@ -764,12 +768,16 @@ def oracle_delevsim(case, impl):
 
 
 def oracle(suite, case, impl):
+    if suite == "txval":
+        return C10.oracle_val(case, impl)
     if suite == "privsim":
         return oracle_privsim(case, impl)
     return oracle_delevsim(case, impl)
 
 
 def nontrivial(suite, case, impl):
+    if suite == "txval":
+        return "OK" in TG.parse_val(case, impl)["VD"]
     if suite == "privsim":
         for p in impl.split(" | ")[2:]:
             if p.startswith("OK B") and (" D - A -" not in p):
